@@ -84,7 +84,10 @@ theorem model_mirrors_ts_branch_table :
        ("gt", "find_gt", "set(self._storage_pos_sorted_by_ts[match:])", "set([])"),
        ("ge", "find_ge", "set(self._storage_pos_sorted_by_ts[match:])", "set([])")] ∧
     Generated.tsHasGenericBranch = true ∧
-    Generated.tsOpSelection = ["op = query._operator if query.is_hashable() else None", "rhs = query._rhs"] := by
+    Generated.tsOpSelection = ["op = query._operator if query.is_hashable() else None", "rhs = query._rhs",
+      -- (repaired) the bisection branches are for comparisons with an aware datetime only — the Model's `cmp` leaves
+      -- over instants; `test` leaves, `None` and naive values take the generic branch
+      "op = op if isinstance(rhs, datetime) and rhs.tzinfo else None"] := by
   refine ⟨rfl, rfl, rfl⟩
 
 theorem model_mirrors_index_result_algebra :
